@@ -16,6 +16,7 @@ import (
 	"os"
 	"os/exec"
 	"regexp"
+	"runtime"
 	"sort"
 	"strings"
 	"syscall"
@@ -75,6 +76,8 @@ type PubVariant struct {
 	// process, with PriorOptions; -1 = none.
 	Prior        int         `json:"prior"`
 	PriorOptions *PubOptions `json:"prior_options,omitempty"`
+	// PriorFaults: disk faults of the earlier publish (which then ends early)
+	PriorFaults []DiskFault `json:"prior_faults,omitempty"`
 	// SameObject: the earlier publish uses the very same *gedcom.Document
 	// value as the publish under test (Prior must be 0).
 	SameObject bool `json:"same_object,omitempty"`
@@ -127,10 +130,49 @@ func applyPubEdits(doc *gedcom.Document, edits []PubEdit) {
 }
 
 type DiskFault struct {
-	Kind   string `json:"kind"` // "fail_call"
-	K      int    `json:"k"`    // 1-based WriteFile call
+	// Kind: "fail_call" (the call fails before anything is written) or
+	// "fail_body" (the device takes B bytes of the page, then the write is
+	// short and fails: a disk that fills up in the middle of a file)
+	Kind   string `json:"kind"`
+	K      int    `json:"k"` // 1-based WriteFile call
 	Sticky bool   `json:"sticky"`
 	Jobs   int    `json:"jobs"`
+	B      int    `json:"b,omitempty"`
+}
+
+// fullAfter is a device that fills up: it takes left bytes, then every write
+// is short and fails.
+type fullAfter struct {
+	buf  *bytes.Buffer
+	left int
+	err  error
+}
+
+func (w *fullAfter) Write(p []byte) (int, error) {
+	if len(p) <= w.left {
+		w.left -= len(p)
+		return w.buf.Write(p)
+	}
+	n := w.left
+	w.buf.Write(p[:n])
+	w.left = 0
+	w.err = &os.PathError{Op: "write", Path: "page", Err: syscall.ENOSPC}
+	return n, w.err
+}
+
+//go:norace
+func (d *Disk) bodyFired() { d.fired++ }
+
+// bodyFault: the fail_body fault for call k, if any.
+//
+//go:norace
+func (d *Disk) bodyFault(k int) (b int, ok bool) {
+	for _, f := range d.faults {
+		if f.Kind == "fail_body" && f.K == k {
+			return f.B, true
+		}
+	}
+	return 0, false
 }
 
 type LivingInfo struct {
@@ -248,7 +290,41 @@ func (d *Disk) WriteFile(f *core.File) error {
 		return err
 	}
 	var buf bytes.Buffer
-	_, err := f.Component.WriteHTMLTo(&buf)
+	var err error
+	if b, ok := d.bodyFault(k); ok {
+		// as the library's own directory writer does: the components panic
+		// with the error of a failed write (core.appendString), it is the
+		// error of this file; anything else goes on as a panic
+		dev := &fullAfter{buf: &buf, left: b}
+		func() {
+			defer func() {
+				if r := recover(); r != nil {
+					werr, isError := r.(error)
+					if _, isRuntime := r.(runtime.Error); !isError || isRuntime {
+						panic(r)
+					}
+					err = werr
+				}
+			}()
+			_, err = f.Component.WriteHTMLTo(dev)
+		}()
+		if err == nil && dev.err != nil {
+			// a component that lost the error: the writer still knows
+			err = dev.err
+		}
+		if dev.err != nil {
+			// (a page shorter than b bytes fits: no fault happened)
+			d.bodyFired()
+		}
+		e := ""
+		if err != nil {
+			e = err.Error()
+		}
+		d.record(k, f.Name, componentKind(f.Component), buf.Bytes(), e)
+		simrt.Yield("disk:write+")
+		return err
+	}
+	_, err = f.Component.WriteHTMLTo(&buf)
 	e := ""
 	if err != nil {
 		e = err.Error()
@@ -807,6 +883,10 @@ func genPublishCase(prop, tier string, r *rand.Rand) *Case {
 	case 1:
 		cfg.Faults = append(cfg.Faults, DiskFault{Kind: "fail_call", K: 0, Sticky: r.IntN(2) == 0, Jobs: pick(r, []int{2, 8})})
 	}
+	if r.IntN(4) == 0 {
+		// the disk fills up in the middle of the k-th file (every k)
+		cfg.Faults = append(cfg.Faults, DiskFault{Kind: "fail_body", K: 0, B: r.IntN(3000), Jobs: pick(r, []int{1, 1, 2, 8})})
+	}
 	c.Publish = cfg
 	c.Sim = simrt.Config{Mode: "default", MapOrder: "identity", Seed: r.Uint64()}
 	c.Today = pick(r, []string{"", "", "2000-06-15", "2000-12-31", "2025-03-01"})
@@ -1091,14 +1171,18 @@ func runPublishCase(t *testing.T, c *Case) *CaseResult {
 			if jobs > 1 {
 				sim = simrt.Config{Mode: "random", PreemptProb: 0.2, Seed: c.Sim.Seed + uint64(k), MapOrder: "identity"}
 			}
-			run, _ := runPublish(t, cr, prop, c.Docs[0], cfg.Options, jobs, sim, c.Today,
-				[]DiskFault{{Kind: "fail_call", K: k, Sticky: f.Sticky}})
+			df := DiskFault{Kind: "fail_call", K: k, Sticky: f.Sticky}
+			if f.Kind == "fail_body" {
+				// after 0, 1, a few or many bytes of the page
+				df = DiskFault{Kind: "fail_body", K: k, B: []int{0, 1, f.B % 200, f.B}[k%4]}
+			}
+			run, _ := runPublish(t, cr, prop, c.Docs[0], cfg.Options, jobs, sim, c.Today, []DiskFault{df})
 			if run.fired == 0 {
 				continue
 			}
 			cr.NonTrivial = true
-			cr.Distinct = append(cr.Distinct, fmt.Sprintf("fault:%s:k=%d:j=%d:s=%v", hashCaseDocs(c), k, jobs, f.Sticky))
-			cr.count("disk.fail_call", 1)
+			cr.Distinct = append(cr.Distinct, fmt.Sprintf("fault:%s:%s:k=%d:b=%d:j=%d:s=%v", hashCaseDocs(c), df.Kind, k, df.B, jobs, f.Sticky))
+			cr.count("disk."+df.Kind, 1)
 			if f.Sticky {
 				cr.count("disk.sticky", 1)
 			}
@@ -1109,7 +1193,7 @@ func runPublishCase(t *testing.T, c *Case) *CaseResult {
 				cr.violate(prop+"/termination", "files are written after Publish has returned",
 					fmt.Sprintf("WriteFile call %d failed (jobs=%d sticky=%v): %d WriteFile calls started after Publish had returned", k, jobs, f.Sticky, run.lateWrites))
 			}
-			if !f.Sticky && k%3 == 1 {
+			if !f.Sticky && k%3 == 1 && df.Kind == "fail_call" {
 				// the same Publisher once more after the failed attempt, the
 				// disk working again: the site, or an error
 				doc, derr := decode(c.Docs[0])
